@@ -31,8 +31,23 @@ fn report(c: &Case) -> CaseReport {
     history_report(c, oracles(), nontrivial)
 }
 
+fn strategy(tier: Tier) -> BoxedStrategy<Case> {
+    // a share of the histories starts on a foreign file that carries tolerated deviations
+    // (non-zero CLSID/times on streams, start/size on storages, wrong root name, ...): a
+    // refused call must not "repair" them either
+    let devs = proptest::collection::vec((any::<u8>(), any::<u16>()), 1..4);
+    (case_strategy(&profile(tier), crate::synth::AVAILABLE), proptest::option::weighted(0.2, (any::<u64>(), devs)))
+        .prop_map(|(mut c, dv)| {
+            if let Some((seed, devs)) = dv {
+                c.start = Start::Deviant { seed, devs };
+            }
+            c
+        })
+        .boxed()
+}
+
 fn worker(ctx: &Ctx) -> WorkerResult {
-    run_worker(ctx, case_strategy(&profile(ctx.tier), crate::synth::AVAILABLE), report)
+    run_worker(ctx, strategy(ctx.tier), report)
 }
 
 fn solo(v: &Value) -> Result<CaseReport, String> {
